@@ -38,14 +38,14 @@ GROUPS = {
             'laguerre', 'jacobi', 'besselj', 'bessely', 'besseli', 'besselk', 'erf', 'gammainc', 'expint', 'ellipk', 'ellipe', 'agm'],
     'rational': ['zeta_rat_tuple', 'hyper_rat_tuple', 'hyp1f1_rat_tuple', 'hyp2f1_rat_tuple', 'besselj_half', 'hyp1f1_half', 'besselj', 'hyp1f1',
                  'legenp', 'hermite_r', 'gegenbauer'],
-    'rules': ['invertlaplace_deg', 'invertlaplace_sin', 'invertlaplace', 'quad_method', 'quadosc', 'nsum_levin', 'nsum', 'sumem', 'chebyfit', 'fourier',
+    'rules': ['invertlaplace_deg', 'invertlaplace_stehfest16', 'invertlaplace_sin', 'invertlaplace', 'quad_method', 'quadosc', 'nsum_levin', 'nsum', 'sumem', 'chebyfit', 'fourier',
               'polyroots', 'findroot_solver', 'pade', 'gauss_quadrature'],
     'bess': ['airyai', 'airybi', 'airyai_d', 'airyaizero', 'coulombf', 'coulombg', 'coulombc', 'besseljzero', 'besselyzero', 'struveh',
              'hankel1', 'ker', 'pcfd', 'whitm', 'hyperu', 'airybizero'],
 }
 EXCLUDE = frozenset(['primepi2', 'rand', 'randmatrix'])
 # callback-taking entries that may be probed / laddered (their callbacks are pure functions of the argument)
-CB_OK = frozenset(['quad', 'quadgl', 'quad_lor', 'quadts', 'nsum', 'diff', 'invertlaplace_deg', 'invertlaplace_sin', 'quad_method',
+CB_OK = frozenset(['quad', 'quadgl', 'quad_lor', 'quadts', 'nsum', 'diff', 'invertlaplace_deg', 'invertlaplace_stehfest16', 'invertlaplace_sin', 'quad_method',
                    'nsum_levin', 'chebyfit', 'findroot_solver', 'sumem'])
 # thresholds of the series caches in libelefun
 ELEM_PRECS = [380, 399, 400, 401, 420, 2480, 2499, 2500, 2501, 2520, 2980, 2999, 3000, 3001, 3020, 600, 1500]
